@@ -14,7 +14,7 @@ RULE = ("Cases = (function, point, order, options, precision 30..300, API). Func
         "known derivatives: products of 1..3 atoms over 1..3 variables, atoms = polynomial with small dyadic "
         "coefficients, exp(a.x), sin(a.x+b), cos(a.x+b) (|a| from 1/16 to 8), univariate 1/(x-c), 1/(x^2+c^2) with the "
         "point at distance >= 1 from every pole, and sin(a x)/x at 0 with singular=True. Points: Python int/float/"
-        "complex, mpf (small dyadic, p-bit non-dyadic, tiny, zero) and mpc; for relative=True also |x| = 2^(+-20..150). "
+        "complex, mpf (small dyadic up to 127, p-bit non-dyadic below 8, tiny, zero) and mpc; for relative=True also |x| = 2^(+-20..150). "
         "Orders 0..10 (partial: order tuples of total <= 6). Options per the diff docstring: h (2^-4 down to "
         "2^-(p+addprec)), direction (+-1, complex), singular, addprec, relative, method='quad' with radius. The "
         "function handed to mpmath is a closure over the repository's own exp/sin/cos and arithmetic. "
@@ -26,7 +26,8 @@ RULE = ("Cases = (function, point, order, options, precision 30..300, API). Func
         "(n+1)|h| mag_{n+1}; central: n h^2 mag_{n+2}; evaluation at (n+1) times the precision: 2^-workprec 2^n mag_0/|h|^n), "
         "negligible for the default options. With a user supplied h the reference is the exact difference quotient "
         "of that step (the docstring's meaning of h).  method='quad': S also includes 2^-6 of the Cauchy bound n! "
-        "max|f| / r^n of the documented contour integral. diffun(f,n)(x) must equal diff(f,x,n) bit for bit; diffs "
+        "max|f| / r^n of the documented contour integral and the absolute floor max(1, n!/64), because quadts stops on an "
+        "absolute error estimate (quadrature accuracy is not this property's business). diffun(f,n)(x) must equal diff(f,x,n) bit for bit; diffs "
         "yields f^(k)(x) for k = 0..n; taylor yields f^(k)(x)/k! (default chop: absolute 2^(10-p) added). "
         "difference(s,n) against the exact sum (-1)^(n-k) C(n,k) s_k over Fractions (bit-exact when every partial "
         "sum is representable, else 2^(10-p) sum C(n,k)|s_k|). differint(t^k, x, n, x0=0) for real orders n in [-3, 3.5] "
@@ -107,6 +108,13 @@ def _atom(d, nv, kind):
     return {"t": kind, "a": _lin(d, nv), "b": d.weighted([(2, [0, 0]), (3, [d.int(-20, 20), d.int(0, 3)])])}
 
 
+def _fam(atoms):
+    ts = [a["t"] for a in atoms]
+    if len(ts) > 1:
+        return "prod"
+    return "poly" if ts[0] == "poly" else ("rat" if ts[0].startswith("rat") else "entire")
+
+
 SHAPES1 = [(5, ["poly"]), (3, ["exp"]), (3, ["sin"]), (2, ["cos"]), (3, ["poly", "exp"]), (3, ["exp", "sin"]),
            (2, ["exp", "cos"]), (2, ["poly", "sin"]), (1, ["sin", "cos"]), (1, ["poly", "exp", "sin"]),
            (3, ["rat1"]), (3, ["rat2"]), (1, ["rat1", "exp"]), (1, ["poly", "rat2"])]
@@ -115,7 +123,7 @@ SHAPESN = [(4, ["poly"]), (3, ["exp"]), (2, ["sin"]), (1, ["cos"]), (3, ["poly",
 
 
 def _mant(d, p):
-    """(sign, man, exp) of a real number with |x| <= 8"""
+    """(sign, man, exp) of a real number with |x| <= 127"""
     k = d.weighted([(3, "dy"), (5, "nd"), (1, "zero"), (1, "tiny"), (1, "one")])
     if k == "zero":
         return exact.fzero, k
@@ -130,7 +138,7 @@ def _mant(d, p):
 
 
 def _point(d, p, cplx=None):
-    """evaluation point with |Re|, |Im| <= 8"""
+    """evaluation point with |Re|, |Im| <= 127 (mostly <= 8)"""
     if cplx is None:
         cplx = d.int(0, 3) == 0
     ty = d.weighted([(6, "mp"), (1, "int"), (1, "float")])
@@ -230,7 +238,7 @@ def gen_case(d, shard, tier):
         f = _fun1(d, x)
         o, k = _opts_step(d, p, n)
         return {"kind": "diff", "p": p, "api": api, "f": f, "x": [x], "n": [n], "opts": o,
-                "cls": "diff:%s:%s" % ("*".join(a["t"] for a in f["atoms"]), k)}
+                "cls": "diff:%s:%s" % (_fam(f["atoms"]), k.split("+")[0])}
     if shard == "quad":
         p = d.weighted([(5, _prec(d, 128)), (1, _prec(d, 300))])
         x = _point(d, p)
@@ -244,7 +252,7 @@ def gen_case(d, shard, tier):
             o["radius_float"] = d.bool()
         api = d.weighted([(4, "diff"), (1, "diffun")])
         return {"kind": "diff", "p": p, "api": api, "f": f, "x": [x], "n": [n], "opts": o,
-                "cls": "quad:%s" % "*".join(a["t"] for a in f["atoms"])}
+                "cls": "quad:%s" % _fam(f["atoms"])}
     if shard == "partial":
         nv = d.weighted([(5, 2), (2, 3), (1, 1)])
         p = _prec(d, 300 if nv < 3 else 128)
@@ -265,7 +273,7 @@ def gen_case(d, shard, tier):
         elif k == "sing":
             o["singular"] = True
         return {"kind": "diff", "p": p, "api": "diff", "partial": True, "seq": d.choice(["tuple", "list"]), "f": f, "x": xs,
-                "n": ns, "opts": o, "cls": "partial:%d:%s:%s" % (nv, "*".join(shape), k)}
+                "n": ns, "opts": o, "cls": "partial:%d:%s" % (nv, "opts" if o else "none")}
     if shard == "diffs":
         p = _prec(d)
         api = d.weighted([(3, "diffs"), (2, "diffs_inf"), (3, "taylor"), (1, "taylor_nochop")])
@@ -291,7 +299,7 @@ def gen_case(d, shard, tier):
             x = _point(d, p)
             f = _fun1(d, x)
         return {"kind": "diffs", "p": p, "api": api, "f": f, "x": [x], "n": [n], "opts": o,
-                "cls": "%s:%s:%s" % (api, "*".join(a["t"] for a in f["atoms"]), k)}
+                "cls": "%s:%s" % (api, k)}
     if shard == "difference":
         p = _prec(d)
         ty = d.weighted([(3, "int"), (3, "mpf_int"), (3, "mpf"), (2, "mpc"), (1, "mixed")])
@@ -361,7 +369,7 @@ def _gen_relative(d, p, n, api):
     if d.int(0, 3) == 0:
         o["addprec"] = d.choice([5, 20, 40])
     return {"kind": "diff", "p": p, "api": api, "f": {"nv": 1, "atoms": atoms}, "x": [x], "n": [n], "opts": o,
-            "cls": "diff:relative:%s:%s" % ("*".join(shape), "big" if e > 0 else "tiny")}
+            "cls": "diff:relative:%s" % ("big" if e > 0 else "tiny")}
 
 
 # ------------------------------------------------------------------------------------------------ symbolic oracle
@@ -521,10 +529,8 @@ def _build(mp, f):
         else:
             raise ValueError(t)
         parts.append(g)
-    if len(parts) == 1:
-        return parts[0]
-
     def fun(*xs):
+        xs = [mp.convert(x) for x in xs]
         v = parts[0](*xs)
         for g in parts[1:]:
             v = v * g(*xs)
@@ -630,9 +636,12 @@ class _Oracle:
             h = mr.ldexp(h, int(mr.mag(self.X[0])))
         return h
 
-    def allowance(self, n, var=0, shifted=0, h=None):
+    def allowance(self, n, var=0, shifted=0, h=None, base=None):
         """truncation + evaluation-rounding allowance of the documented finite difference of order n in variable var
-        (other orders zero), evaluated with magnitudes at the point.  shifted = extra stencil shift in units of h."""
+        (orders of the other variables from base).  The difference quotient is an average of f^(n) over the convex
+        hull of the stencil (Hermite-Genocchi), so it differs from f^(n)(x) by at most sum_j (s h)^j/j! |f^(n+j)(x)|
+        with s h the reach of the stencil, j >= 1 for one-sided / perturbed / shifted stencils and j >= 2 for the
+        symmetric one.  shifted = extra stencil shift in units of h (diffs)."""
         mr = self.mr
         ap = self.o.get("addprec", 10)
         if h is None:
@@ -641,16 +650,22 @@ class _Oracle:
         nvars = len(self.X)
 
         def mg(k):
-            nv = [0] * nvars
+            nv = list(base) if base is not None else [0] * nvars
             nv[var] = k
             return self.mag(nv)
         onesided = bool(_dir(self.o)) or self.o.get("singular") or shifted
-        if onesided:
-            t = 2 * (n + 1 + shifted) * h * mg(n + 1) + 4 * ((n + 1 + shifted) * h) ** 2 * mg(n + 2)
-        else:
-            t = 2 * n * h * h * mg(n + 2)
-        workprec = (self.p + 2 * ap) * (n + 1 + (1 if shifted else 0))
+        reach = (n + 1 + shifted) * h if onesided else n * h
+        # polynomial factors can vanish to high order at the point: go far enough to see their first non-zero term
+        deg = 0
+        for a in self.atoms:
+            if a["t"] == "poly":
+                deg += max(e[0][var] for e in a["terms"])
+        t = mr.zero
+        if reach:
+            for j in range(1 if onesided else 2, deg + 4):
+                t = t + 2 * reach ** j / factorial(j) * mg(n + j)
         if n:
+            workprec = (self.p + 2 * ap) * (n + 1 + (1 if shifted else 0))
             norm = h if _dir(self.o) else 2 * h
             t = t + mr.ldexp(mr.one, 3 - workprec + n) * mg(0) / norm ** n
         return t
@@ -662,7 +677,7 @@ def _cmp(res, bucket, what, got, ex, scale, extra, p, mr, metric=None):
         return False
     err = abs(got - ex)
     tol = mr.ldexp(scale, 10 - p) + extra
-    if metric and tol:
+    if metric and tol and err <= tol:
         res.metrics[metric] = max(res.metrics.get(metric, 0.0), float(err / tol))
     if err > tol:
         res.bad(bucket, "%s = %s, expected %s: error %s is %s times the allowed 2^(10-p)*%s + %s" % (
@@ -719,18 +734,29 @@ def _check_diff(c, res, mp, mr):
         api = "diff"
     elif c["api"] == "diffun":
         g = mp.diffun(fun, nv[0], **kw)
-        got = g(xs[0])
+        shortcut = nv[0] == 0 and (method == "quad" or o.get("singular"))
+        try:
+            got = g(xs[0])
+        except ZeroDivisionError:
+            if shortcut and f["atoms"][0]["t"] == "sincq":
+                mp.prec = p
+                res.bad("diffun:order0:singular", "diffun(f, 0, singular=True)(0) evaluates f at the singular point itself "
+                        "(ZeroDivisionError) whereas diff(f, 0, 0, singular=True) = %s; %s" % (
+                            mp.nstr(mp.diff(fun, xs[0], 0, **kw), 15), desc))
+                return
+            raise
         if mp.prec != p:
             res.bad("prec:leak:diffun", "mp.prec = %d after diffun call, was %d; %s" % (mp.prec, p, desc))
             mp.prec = p
         got2 = mp.diff(fun, xs[0], nv[0], **kw)
         api = "diffun"
-        if not (type(got) is type(got2) and (got == got2 or (got != got and got2 != got2))):
+        # (order 0: diffun documents nothing but returns f itself, which is the exact 0-th derivative)
+        if not shortcut and not (type(got) is type(got2) and (got == got2 or (got != got and got2 != got2))):
             res.bad("diffun:mismatch", "diffun(f, n)(x) = %r but diff(f, x, n) = %r; %s" % (got, got2, desc))
     else:
         got = mp.diff(fun, xs[0], nv[0], **kw)
         api = "diff"
-    res.n += 1
+    res.n = 2 if c["api"] == "diffun" else 1
     if mp.prec != p:
         res.bad("prec:leak:%s" % api, "mp.prec = %d after the call, was %d; %s" % (mp.prec, p, desc))
         mp.prec = p
@@ -749,7 +775,7 @@ def _check_diff(c, res, mp, mr):
     if method == "quad":
         r = mr.mpf(o["radius"][0]) / 2 ** o["radius"][1] if "radius" in o else mr.mpf(0.25)
         cb = _cauchy(mr, f["atoms"], orc.X[0], nv[0], r)
-        scale = max(scale, cb / 64)
+        scale = max(scale, cb / 64, mr.mpf(factorial(nv[0])) / 64, 1)
         _cmp(res, "diff:quad", "diff(method='quad') [%s]" % desc, gref, ex, scale, 0, p, mr, "quad_err/tol")
         return
     if sum(nv) == 0 and not o.get("singular"):
@@ -786,11 +812,8 @@ def _check_diff(c, res, mp, mr):
         allow = mr.zero
         for i, n in enumerate(nv):
             if n:
-                rest = list(nv)
-                rest[i] = 0
-                # magnitude of the remaining derivative orders applied to the allowance of variable i
-                a_i = _partial_allow(orc, nv, i)
-                allow = allow + a_i
+                # allowance of variable i's stencil with the other variables' orders applied to the magnitudes
+                allow = allow + orc.allowance(n, var=i, base=nv)
         b = "diff:partial" + (":direction" if _dir(o) else "") + (":singular" if o.get("singular") else "")
         _cmp(res, b, "diff(partial) [%s]" % desc, gref, ex, scale, allow, p, mr, "partial_err/tol")
         return
@@ -805,27 +828,6 @@ def _check_diff(c, res, mp, mr):
     else:
         b = "diff:step"
     _cmp(res, b, "%s [%s]" % (api, desc), gref, ex, scale, allow, p, mr, "step_err/tol")
-
-
-def _partial_allow(orc, nv, i):
-    """allowance of the stencil in variable i, with the other variables' orders applied to the magnitudes"""
-    mr = orc.mr
-    o = orc.o
-    ap = o.get("addprec", 10)
-    h = mr.ldexp(mr.one, -orc.p - ap)
-    n = nv[i]
-
-    def mg(k):
-        v = list(nv)
-        v[i] = k
-        return orc.mag(v)
-    if _dir(o) or o.get("singular"):
-        t = 2 * (n + 1) * h * mg(n + 1) + 4 * ((n + 1) * h) ** 2 * mg(n + 2)
-    else:
-        t = 2 * n * h * h * mg(n + 2)
-    # evaluation rounding: the inner results carry the outer working precision
-    t = t + mr.ldexp(mr.one, 3 - (orc.p + 2 * ap) * (n + 1) + n) * mg(0) / h ** n
-    return t
 
 
 def _check_diffs(c, res, mp, mr):
@@ -859,7 +861,7 @@ def _check_diffs(c, res, mp, mr):
                 mp.prec = p
         if len(vals) != n + 1:
             res.bad("diffs:length", "diffs(f, x, %d) yielded %d items; %s" % (n, len(vals), desc))
-    res.n += len(vals)
+    res.n = max(1, len(vals))
     orc = _Oracle(mr, c)
     method = o.get("method", "step")
     for k, v in enumerate(vals[:n + 1]):
@@ -867,7 +869,7 @@ def _check_diffs(c, res, mp, mr):
         ex = orc.deriv([k])
         scale = max(abs(ex), orc.mag([k]))
         if method == "quad":
-            scale = max(scale, _cauchy(mr, f["atoms"], orc.X[0], k, mr.mpf(0.25)) / 64)
+            scale = max(scale, _cauchy(mr, f["atoms"], orc.X[0], k, mr.mpf(0.25)) / 64, mr.mpf(factorial(k)) / 64, 1)
             allow = mr.zero
         elif k == 0 and not o.get("singular"):
             allow = mr.zero
@@ -951,7 +953,7 @@ def _check_difference(c, res, mp, mr):
             res.bad("difference:exact", "%s = %r, exact (representable) value %s%s" % (what, got, exr, " + %s j" % exi if exi else ""))
         return
     if err > mag * Fraction(1, 2 ** (p - 10)):
-        res.bad("difference", "%s = %r, exact %s (error %.3g, allowed 2^(10-p) * %.3g)" % (what, got, float(exr), float(err), float(mag)))
+        res.bad("difference", "%s = %r, exact %s (error %.3g, allowed 2^(10-p) * %.3g)" % (what, got, _fl(exr), _fl(err), _fl(mag)))
 
 
 def _check_differint(c, res, mp, mr):
@@ -1072,12 +1074,18 @@ def _check_pade(c, res, mp, mr):
             cond = max(sum(abs(v) for v in row) for row in A) * max(sum(abs(v) for v in row) for row in inv)
     try:
         pq = mp.pade(a, L, M)
+    except TypeError as e:
+        if M and sol is None and "NoneType" in str(e):
+            mp.prec = p
+            return res.bad("pade:singular:typeerror", "%s: exactly singular table raises TypeError (%s) instead of the "
+                           "documented ZeroDivisionError" % (what, e))
+        raise
     except ZeroDivisionError:
         if mp.prec != p:
             res.bad("prec:leak:pade", "mp.prec = %d after %s raised, was %d" % (mp.prec, what, p))
             mp.prec = p
         if M and (sol is None or cond * 2 ** 12 > 2 ** p):
-            res.cls += ":singular"
+            res.cls = "pade:singular"
             return            # documented: degenerate table
         return res.bad("pade:zerodiv", "%s raised ZeroDivisionError although the table is regular (cond %.3g)" % (what, _fl(cond or 0)))
     if mp.prec != p:
@@ -1103,7 +1111,7 @@ def _check_pade(c, res, mp, mr):
     tolf = Fraction(1, 2 ** (p - 10)) if p > 10 else Fraction(2 ** (10 - p))
     if cond * tolf > Fraction(1, 8):
         res.inconclusive = True
-        res.cls += ":illcond"
+        res.cls = "pade:illcond"
         return
     rows = []
     for k in range(L + M + 1):
@@ -1114,24 +1122,24 @@ def _check_pade(c, res, mp, mr):
     for k in range(L + 1):
         err = abs(rows[k][0] - pf[k])
         if rows[k][1]:
-            worst = max(worst, float(err / (rows[k][1] * tolf)))
+            worst = max(worst, _fl(err / (rows[k][1] * tolf)))
         if err > rows[k][1] * tolf:
-            res.bad("pade:p", "%s: p[%d] = %s but sum_j q_j a_(k-j) = %s" % (what, k, mp.nstr(pp[k], 20), float(rows[k][0])))
+            res.bad("pade:p", "%s: p[%d] = %s but sum_j q_j a_(k-j) = %s" % (what, k, mp.nstr(pp[k], 20), _fl(rows[k][0])))
             break
     for k in range(L + 1, L + M + 1):
         err = abs(rows[k][0])
         if nscale:
-            worst = max(worst, float(err / (nscale * tolf)))
+            worst = max(worst, _fl(err / (nscale * tolf)))
         if err > nscale * tolf:
             res.bad("pade:residual", "%s: series coefficient %d of a*q is %.3g, not 0 (allowed 2^(10-p) * %.3g); q = %s" % (
-                what, k, float(rows[k][0]), float(nscale), [mp.nstr(v, 12) for v in qq]))
+                what, k, _fl(rows[k][0]), _fl(nscale), [mp.nstr(v, 12) for v in qq]))
             break
     qs = max(abs(v) for v in sol) or Fraction(1)
     qerr = max(abs(u - v) for u, v in zip(qf[1:], sol))
-    worst = max(worst, float(qerr / (qs * cond * tolf)))
+    worst = max(worst, _fl(qerr / (qs * cond * tolf)))
     if qerr > qs * cond * tolf:
         res.bad("pade:q", "%s: q = %s differs from the exact solution %s by %.3g (cond %.3g)" % (
-            what, [mp.nstr(v, 15) for v in qq], [float(v) for v in sol], _fl(qerr), _fl(cond)))
+            what, [mp.nstr(v, 15) for v in qq], [_fl(v) for v in sol], _fl(qerr), _fl(cond)))
     res.metrics["pade_err/tol"] = worst
 
 
